@@ -16,9 +16,10 @@ ASSUMPTIONS = ['dz >= 2^-20 (below float resolution of 3.0 the real loop cannot 
 
 def curve(rng, n):
     kind = rng.choice(['steps', 'decay', 'plateaus', 'noisy', 'cliffs'])
-    x = [rng.choice([0, 1])]
+    contiguous = rng.random() < 0.35        # x = 0..n-1: the point count is then one more than the largest x
+    x = [0 if contiguous else rng.choice([0, 1])]
     for _ in range(n - 1):
-        x.append(x[-1] + rng.choice([1, 1, 1, 2, 3, 5]))
+        x.append(x[-1] + (1 if contiguous else rng.choice([1, 1, 1, 2, 3, 5])))
     y, cur = [], rng.choice([1.0, 0.96875, 0.75])
     for i in range(n):
         y.append(cur)
@@ -103,8 +104,10 @@ def one(ctx, pts, dx, dy, dz, x_max, y_range, family):
             if m[0] == 'none':
                 ctx.fail('correspondence', 'zKnees fuel exhausted', site, case, dict(impl=out))
             elif core.parse_nats(m[0]) != out:
-                if len(set(np.round(z, 12))) < len(z):
-                    ctx.tag('tie:equal-z(relational)')
+                # NumPy's argsort order on EQUAL keys is unspecified: when some round sorted group candidates with equal
+                # z keys (reported by the driver) the comparison is relational only (direct predicates above)
+                if len(m) > 1 and m[1] == 'tie':
+                    ctx.tag('tie:equal-z-keys-in-a-multi-group-round(relational)')
                 else:
                     ctx.fail('correspondence', 'zKnees', site, case, dict(impl=out, model=core.parse_nats(m[0]), w=w, h=float(h)))
     ctx.count(family, n=n, nontrivial_key=(pts.tobytes(), dx, dy, dz, x_max, str(y_range)) if len(out) >= 2 else None,
@@ -115,7 +118,7 @@ def run(ctx):
     rng = ctx.rng
     quick = ctx.tier == 'quick'
     for _ in range(350 if quick else 8000):
-        n = rng.randrange(4, 90)
+        n = rng.randrange(4, 17) if rng.random() < 0.6 else rng.randrange(17, 90)
         pts, fam = curve(rng, n)
         dyad = [2.0 ** -k for k in range(0, 7)]
         dx = rng.choice(dyad + [0.05, 0.1])
